@@ -71,6 +71,9 @@ ALSO_RULES_OF = {"C02": ("C03/ThrowingNeverNull",),
                  "C09": ("C20/MemoryReturnedSameShape",),
                  "C10": ("C09/ReleaseSameShape", "C09/ReleaseOnce", "C09/EverythingReleasedToLeaves"),
                  "C17": ("C11/NoWriteOutsideBlock", "C11/PieceAligned"),
+                 # "the bucket chosen for a size always has nodes at least that large": on real collections the node holds
+                 # the size (C01 / C02 guards) and a free node of the bucket is handed out
+                 "C19": ("C01", "C02", "C04/FreeNodeIsUsable"),
                  # "counters change by exactly the amount an operation consumes or returns": C04's accounting guards say that
                  "C18": ("C04/CapacityMovesByTaken", "C04/DeallocReturnsWhatWasTaken", "C04/ReportedCapacityIsUsable", "C04/FailureKeepsCapacity"),
                  "C05": ("C16", "C14/AllFreedAtExit", "C14/ShrinkRequestReturnsBlocks", "C14/BlocksKeptForReuse", "C09/UpstreamBlocksReturnedAtEnd"), "C12": ("C01", "C03", "C15/MovedFromSilent", "C09/ReleaseSameShape", "C09/ReleaseOnce", "C09/EverythingReleasedToLeaves"),
